@@ -225,7 +225,8 @@ class StmtMixin:
         if k == 'LabelStmt' or k == 'GotoStmt':
             self.err(s, 'goto/label')
         if k == 'CXXForRangeStmt':
-            self.err(s, 'range-for')
+            self.rangefor(s, cx, out, ind)
+            return
         # expression statement
         v = self.rv(s, cx)
         self.flush(cx, out, ind)
@@ -480,8 +481,51 @@ class StmtMixin:
         self.pop_scope(cx)
         out.append(ind + '}')
 
+    def rangefor(self, s, cx, out, ind):
+        init, rng, beg, end, cond, inc, var, body = s['inner']
+        out.append(ind + '{')
+        self.push_scope(cx)
+        i2 = ind + '  '
+        for d in (init, rng, beg, end):
+            if d and d.get('kind'):
+                self.stmt(d, cx, out, i2)
+        v, pre = self.sub_with_pre(cond, cx)
+        iv, ipre = self.sub_with_pre(inc, cx)
+        if pre or ipre:
+            self.err(s, 'range-for with throwing iterator operations')
+        self.push_scope(cx, 'loop')
+        out.append(i2 + 'for (; %s; %s)' % (v, iv))
+        out.append(i2 + self.loop_marker(cx))
+        o = cx.loop_ord
+        out.append(i2 + '{')
+        self.push_scope(cx)
+        self.stmt(var, cx, out, i2 + '  ')
+        if body.get('kind') == 'CompoundStmt':
+            for c in body.get('inner', []):
+                self.stmt(c, cx, out, i2 + '  ')
+        else:
+            self.stmt(body, cx, out, i2 + '  ')
+        sc = cx.scopes[-1]
+        for cexpr, rid in reversed(sc['dtors']):
+            for l in self.dtor_call(cexpr, rid, cx):
+                out.append(i2 + '  ' + l)
+        self.pop_scope(cx)
+        out.append(i2 + '  /*@LOOPEND %s %d@*/' % (cx.cname, o))
+        out.append(i2 + '}')
+        self.pop_scope(cx)
+        self.pop_scope(cx)
+        out.append(ind + '}')
+
     def dostmt(self, s, cx, out, ind):
         body, cond = s['inner'][0], s['inner'][1]
+        if self.const_value(cond) == 0:
+            # do { ... } while(false): not a loop
+            self.push_scope(cx, 'loop')
+            out.append(ind + 'do')
+            self.stmt_block(body, cx, out, ind)
+            out.append(ind + 'while (0);')
+            self.pop_scope(cx)
+            return
         v, pre = self.sub_with_pre(cond, cx)
         self.push_scope(cx, 'loop')
         if not pre:
